@@ -353,8 +353,11 @@ void h_simple_weight_index(void)
     ASSUME(vnacal_new_add_single_reflect_m(vnp, m1, 1, 1, VNACAL_OPEN, 2) == 0);
     ASSUME(vnacal_new_add_single_reflect_m(vnp, m1, 1, 1, VNACAL_MATCH, 2) == 0);
 #ifdef OVERDETERMINED
-    /* one redundant reflect on port 1, two on port 2: unknowns+1 and unknowns+2 equations */
+    /* one redundant reflect on port 1, two on port 2: unknowns+1 and unknowns+2 equations
+     * (MIXED: none on port 1: the first system is exactly determined, the second over-determined) */
+#ifndef MIXED
     ASSUME(vnacal_new_add_single_reflect_m(vnp, m1, 1, 1, VNACAL_SHORT, 1) == 0);
+#endif
     ASSUME(vnacal_new_add_single_reflect_m(vnp, m1, 1, 1, VNACAL_SHORT, 2) == 0);
     ASSUME(vnacal_new_add_single_reflect_m(vnp, m1, 1, 1, VNACAL_OPEN, 2) == 0);
     /* bounds the V-matrix iteration for symex (calloc'ed prev_x is not constant-folded); two passes suffice here */
@@ -363,9 +366,15 @@ void h_simple_weight_index(void)
     ASSUME(vnacal_new_set_m_error(vnp, NULL, 1, nfv, NULL) == 0);
     unknowns = vnp->vn_layout.vl_t_terms - 1;
 #ifdef OVERDETERMINED
+#ifdef MIXED
+    ASSUME(vnp->vn_systems == 2 && vnp->vn_system_vector[0].vns_equation_count == unknowns &&
+	    vnp->vn_system_vector[1].vns_equation_count == unknowns + 2 && unknowns <= 8 &&
+	    vnp->vn_equations <= 16);
+#else
     ASSUME(vnp->vn_systems == 2 && vnp->vn_system_vector[0].vns_equation_count == unknowns + 1 &&
 	    vnp->vn_system_vector[1].vns_equation_count == unknowns + 2 && unknowns <= 8 &&
 	    vnp->vn_equations <= 16);
+#endif
 #else
     ASSUME(vnp->vn_systems == 2 && vnp->vn_system_vector[0].vns_equation_count == unknowns &&
 	    vnp->vn_system_vector[1].vns_equation_count == unknowns && unknowns <= 8);
@@ -424,7 +433,10 @@ void h_simple_weight_index(void)
 #endif
     rc = _vnacal_new_solve_simple(&vnss, x, 2 * unknowns);
     REACH("solve_simple returned");
-#ifdef OVERDETERMINED
+#if defined(OVERDETERMINED) && defined(MIXED)
+    CHECK(rc == 0 && ghost_kernel_calls == 3,
+	    "an exactly determined system followed by an over-determined one: the iteration of the second ends when x repeats (the first system's solution does not keep it from converging)");
+#elif defined(OVERDETERMINED)
     CHECK(rc == 0 && ghost_kernel_calls == 4, "both systems were assembled and handed to the kernel (twice each: the iteration ends when x repeats)");
 #else
     CHECK(rc == 0 && ghost_kernel_calls == 2, "both systems were assembled and handed to the kernel");
